@@ -43,6 +43,12 @@ def run(ctx):
     # end to end): the one-variable histories again, and the scale histories below
     small = [b for b in behs if len(b) <= 6][:300 if q else 3000]
     s0 = replay_family(ctx, "iface", small, env=dict(ENV, VERIF_NOMMAP="1"), batch=20)   # (the reserve holds about 260 stubs and nothing is given back)
+    # different variables mocked AT THE SAME TIME by builders of their own (twelve goroutines from a common start), checked sequentially
+    from lib.replay import drv_binary
+    rc, o = ctx.run_bin(drv_binary(ctx), "^TestVerifIfaceParallel$", env=dict(ENV, VERIF_OUT="1", VERIF_ROUNDS="12" if q else "120", VERIF_QUIET="1"), timeout=900)
+    if rc != 0:
+        ctx.violation("variables mocked at the same time by builders of their own are not independent: " + o[-900:], {"family": "iface-parallel", "kind": "mismatch", "tail": o[-2500:]})
+    ctx.count(1)
     # the same at scale (Scale.tla, instance ScaleI): 12 variables x 12 methods mocked in groups (more than a page of stub space)
     from checks import life
     life.scale(ctx, 16, 400, iface=True)
